@@ -300,6 +300,8 @@ def run(run):
                 "x user filters x partition subsets: pushed-down plan vs in-memory pandas on the written frame; round trip; lengths; overwrite refusal; unsorted statistics; non-trivial = and/or tree / executed case")
     run.proofs("PropC18.v")
     quick = run.tier == "quick"
+    import minmax
+    minmax.stats_layer(run, quick)
     tmp = tempfile.mkdtemp(prefix="c18_", dir=common.BUILD)
     try:
         import pandas as pd
